@@ -28,7 +28,7 @@ Proof.
     { change (-52)%Z with (-53 + 1)%Z. rewrite bpow_plus_1. reflexivity. }
     change (- (53) + 1)%Z with (-52)%Z in He. rewrite E in He. lra. }
   exists e. split; [exact He'|]. split; [exact Hr|].
-  unfold RN. rewrite Hr. unfold emax. clear Hr He Hlo. interval.
+  unfold RN. rewrite Hr. unfold emax. clear Hr He Hlo. interval with (i_prec 64).
 Qed.
 
 Lemma fmul_rel x y :
@@ -175,7 +175,7 @@ Proof.
   - unfold RN. rewrite <- (round_0 radix2 (FLT_exp (-1074) 53) ZnearestE).
     apply round_le; [apply RN_valid_exp | apply valid_rnd_N | lra].
   - rewrite Hr. replace (y * (1 + eps) + eta - y) with (y * eps + eta) by ring.
-    unfold emax. split; interval.
+    unfold emax. split; interval with (i_prec 64).
 Qed.
 
 Lemma td_of_seconds_acc x :
@@ -185,7 +185,7 @@ Lemma td_of_seconds_acc x :
 Proof.
   intros Fx Hx. destruct x as [s|s| |s m e Hb]; try discriminate.
   - exists 0%Z. simpl. split; [reflexivity|]. split; [lia|].
-    rewrite Rmult_0_r, Rminus_0_r, Rabs_R0. interval.
+    rewrite Rmult_0_r, Rminus_0_r, Rabs_R0. interval with (i_prec 64).
   - destruct s.
     + exfalso. simpl in Hx.
       assert (F2R (Float radix2 (Zneg m) e) < 0) by (apply F2R_lt_0; simpl; lia). lra.
@@ -198,7 +198,7 @@ Proof.
         assert (Hu : (0 <= us <= 2000000000000)%Z).
         { split; apply le_IZR; rewrite E; lra. }
         exists us. split; [apply td_check_ok; lia|]. split; [lia|].
-        rewrite E. replace (_ - _) with 0 by ring. rewrite Rabs_R0. interval.
+        rewrite E. replace (_ - _) with 0 by ring. rewrite Rabs_R0. interval with (i_prec 64).
       * destruct (bpow_neg e He) as [Hd Hbe]. cbv zeta.
         set (d := (2 ^ (- e))%Z) in *.
         set (ip := (Z.pos m / d)%Z). set (fm := (Z.pos m mod d)%Z).
@@ -223,7 +223,7 @@ Proof.
         -- exists (ip * us_per_second)%Z. unfold us_per_second.
            split; [apply td_check_ok; lia|]. split; [lia|].
            rewrite Ez, mult_IZR. replace (_ - _) with 0 by (unfold Rdiv; ring).
-           rewrite Rabs_R0. interval.
+           rewrite Rabs_R0. interval with (i_prec 64).
         -- set (y := IZR (fm * us_per_second) * bpow radix2 e).
            assert (Hy : y = 1000000 * (IZR fm / IZR d)).
            { unfold y, us_per_second. rewrite mult_IZR, Hbe. field. lra. }
@@ -235,7 +235,7 @@ Proof.
               split; [apply td_check_ok; lia|]. split; [lia|].
               simpl in HB. rewrite <- HB in Herr. rewrite mult_IZR.
               replace (_ - _) with (0 - y) by (rewrite Hy; unfold Rdiv; ring).
-              apply Rle_trans with (1 := Herr). interval.
+              apply Rle_trans with (1 := Herr). interval with (i_prec 64).
            ++ destruct s2.
               { exfalso. simpl in HB.
                 assert (F2R (Float radix2 (Zneg m2) e2) < 0) by (apply F2R_lt_0; simpl; lia).
@@ -244,7 +244,7 @@ Proof.
               set (y' := RN y) in *.
               assert (Hy' : 0 <= y' <= 1000001).
               { apply Rabs_le_inv in Herr. split; [exact Hr0|].
-                assert (bpow radix2 (-32) <= 1) by interval. lra. }
+                assert (bpow radix2 (-32) <= 1) by interval with (i_prec 64). lra. }
               destruct (Z.leb_spec 0 e2) as [He2|He2].
               ** set (ip2 := (Z.pos m2 * 2 ^ e2)%Z).
                  assert (E2 : IZR ip2 = y').
@@ -256,7 +256,7 @@ Proof.
                  split; [apply td_check_ok; lia|]. split; [lia|].
                  rewrite !plus_IZR, mult_IZR, E2.
                  replace (_ - _) with (y' - y) by (rewrite Hy; unfold Rdiv; ring).
-                 apply Rle_trans with (1 := Herr). interval.
+                 apply Rle_trans with (1 := Herr). interval with (i_prec 64).
               ** destruct (bpow_neg e2 He2) as [Hd2 Hbe2].
                  set (d2 := (2 ^ (- e2))%Z) in *.
                  set (ip2 := (Z.pos m2 / d2)%Z). set (num2 := (Z.pos m2 mod d2)%Z).
